@@ -570,6 +570,15 @@ func (a *Agent) handleUDPOpenAck(peerID identity.AgentID, frame *protocol.Frame)
 	dest := lookup.Dest
 	a.udpIngressMu.RUnlock()
 
+	// The open handshake completes exactly once. A duplicated or replayed
+	// UDP_OPEN_ACK (it travels in clear) must not derive and install another
+	// session key for an association that is already established.
+	select {
+	case <-dest.PendingOpen:
+		return
+	default:
+	}
+
 	ack, err := protocol.DecodeUDPOpenAck(frame.Payload)
 	if err != nil {
 		return
